@@ -1099,6 +1099,8 @@ SOFT_PROBS = soft_modules(["RbV.Thm.GenSrcProbsModel"], "the real-number model o
                           "`ln_cumsum_exp` (Lemmas/C15*.lean) no longer mirrors the text branch by branch (the property-level "
                           "error bounds over the translated text are checked separately)")
 EXTRACTORS["C15"] = EXTRACTORS["C15"] + [GEN_SRC["SrcProbs"], GEN_SRC["SrcFastExp"], SOFT_PROBS]
+GEN_SRC.update({n: gen_src(n) for n in ("SrcProbsQuad",)})
+EXTRACTORS["C15"] = EXTRACTORS["C15"] + [GEN_SRC["SrcProbsQuad"]]
 
 
 # generated module written by each constant/table extractor (for the theorems not counted when it is unavailable)
